@@ -32,7 +32,7 @@ class C04(Machine):
     runs = {"quick": 60000, "thorough": 2000000}
     batch = 300
     rule = ("three trees (4-9 leaves) over one namespace and leaf set, 5-40 steps of structural edits interleaved with distance queries "
-            "on ordered pairs; distinct = (edit kind, query kind) adjacent pairs with a non-zero reference distance, per run signature")
+            "on ordered pairs; distinct = (preceding edit kind, query kind, reference symmetric difference, lengths complete, rooting) with a non-zero reference distance")
     components = {"real": ["dendropy.calculate.treecompare (all distance functions)", "Tree.encode_bipartitions", "Tree.bipartition_edge_map",
                            "Tree/Node/Edge mutators used as edits"],
                   "simulated": ["history of edits and queries", "random source of randomised edits (SimRNG)", "object addresses (SimAddr)"]}
@@ -289,7 +289,7 @@ class C04(Machine):
                 raise StopRun()
         rec.ev("query", kind, repr(v1) if not isinstance(v1, list) else len(v1))
         if ref["sd"] or ref["wrf"]:
-            rec.nontrivial((last_edit, kind))
+            rec.nontrivial((last_edit, kind, ref["sd"], ref["lengths_present"], self.rooted))
         if st["axioms"]:
             self._axioms(rec, trees, kind, a)
 
